@@ -379,7 +379,10 @@ class Engine:
             # available from the first statement on (loops need them)
             lname, pick = use[0], use[1]
             only = use[2] if len(use) > 2 else None
-            chain = dsl.LEMMAS[lname]["fn"](c, *pick(*params.values()))
+            largs = pick(*params.values())
+            self.func, self.contract = F, K  # (emit needs them; set again below)
+            self.lemma_args_ok(lname, largs, st, c)
+            chain = dsl.LEMMAS[lname]["fn"](c, *largs)
             self.assume_chain([it for it in chain if only is None or it[0] in only], st, top_only=True)
             self.used_contracts.add(f"lemma:{lname}")
             for f in c.side:
@@ -481,7 +484,9 @@ class Engine:
         start = len(self.obls)
         for use in getattr(L["fn"], "uses_lemmas", ()) or ():
             # a lemma may build on items of lemma chains (proved in their own unit), instantiated at its parameters
-            chain = dsl.LEMMAS[use[0]]["fn"](c, *use[1](*params.values()))
+            largs = use[1](*params.values())
+            self.lemma_args_ok(use[0].split("@")[0] if use[0] not in dsl.LEMMAS else use[0], largs, st, c)
+            chain = dsl.LEMMAS[use[0]]["fn"](c, *largs)
             only = use[2] if len(use) > 2 else None
             if isinstance(chain, list):
                 self.assume_chain([it for it in chain if only is None or it[0] in only], st, top_only=True)
@@ -501,6 +506,18 @@ class Engine:
         for j, conj in enumerate(_conjuncts(B(goal))):
             self.emit("goal", st, conj, f".{j}")
         return self.obls[start:]
+
+    def lemma_args_ok(self, lname, args, st, c):
+        """a lemma is proved under the type invariants of its parameters (permutations are bijections,
+        nat >= 0): whoever instantiates it owes these facts (obligation lemma-hyps[...])"""
+        sorts = list(dsl.LEMMAS[lname]["params"].values())
+        for k_, (a_, srt) in enumerate(zip(args, sorts)):
+            if srt == "Perm":
+                self.emit(f"lemma-hyps[{lname}]", st, c.is_perm(a_), f".{k_}")
+            elif srt in ("Mesh", "MeshPatt"):
+                self.emit(f"lemma-hyps[{lname}]", st, c.is_mesh(a_), f".{k_}")
+            elif srt == "nat":
+                self.emit(f"lemma-hyps[{lname}]", st, Z(a_) >= 0, f".{k_}")
 
     def prove_chain(self, chain, hy, tag):
         """items (name, lo, hi, P[, uses]): each proved by induction on [lo, hi] from the base facts and the
@@ -682,7 +699,9 @@ class Engine:
                 lname, pick = use[0], use[1]
                 only = use[2] if len(use) > 2 else None  # the items of the chain this function needs
                 L = dsl.LEMMAS[lname]
-                chain = L["fn"](c, *pick(*self.params.values()))
+                largs = pick(*self.params.values())
+                self.lemma_args_ok(lname, largs, hy, c)
+                chain = L["fn"](c, *largs)
                 self.assume_chain([it for it in chain if only is None or it[0] in only], hy, top_only=True)
                 self.used_contracts.add(f"lemma:{lname}")
         goal = K.ensures(c, *self.params.values(), val)
